@@ -9,7 +9,8 @@
   CASE args: `n tol m11 m12 m21 m22 m31 m32 <prog> <advice>`,
   prog = `B x y a*n | L x y a*n | Q cx cy x y a*n | C c1x c1y c2x c2y x y a*n | E 0/1`,
   advice = `| FQ/FC <ctrl points> k (fx fy tx ty t)*k` and `| IQ/IC <ctrl points> k (x y)*k`.
-  Family `e2e` uses the C09 model of the flattener instead of the advice (end-to-end tie).
+  Family `e2e` uses the C09 model of the flattener instead of the advice (end-to-end tie):
+  `flatBuilderC` / `flatIterC` / `flatAttrIterC` of `Model/Path/AdaptersConcrete.lean`.
   Output: per family the routes listed in the harness' header, calls as `B/L/Q/C/E`, events as
   `b/l/q/c/e`.
 -/
@@ -17,6 +18,7 @@ import LyonVerif.Drive.Common
 import LyonVerif.Model.Geom.Basic
 import LyonVerif.Model.Geom.Flatten
 import LyonVerif.Model.Path.Adapters
+import LyonVerif.Model.Path.AdaptersConcrete
 
 namespace Lyon.Drive.C16
 open Lyon Lyon.Drive Lyon.Path Lyon.Adapt
@@ -203,29 +205,40 @@ ignored) -/
 
 def fuelMax : Nat := 200000
 
-def cbModel (tol : F) : Flattener Pn F where
-  quad a c b :=
-    ((Quad.forEachFlattenedWithT ⟨a, c, b⟩ tol).getD []).map fun s => ⟨s.a, s.b, s.t1⟩
-  cubic a c1 c2 b :=
-    ((Cubic.forEachFlattenedWithT ⟨a, c1, c2, b⟩ tol).getD []).map fun s => ⟨s.a, s.b, s.t1⟩
-
-def itModel (tol : F) : IterFlattener Pn where
-  quad a c b := (QuadIter.new ⟨a, c, b⟩ tol).collect fuelMax
-  cubic a c1 c2 b :=
-    match CubicIter.new ⟨a, c1, c2, b⟩ tol with
-    | some it => it.collect fuelMax
-    | none => []
-
+/-- the concrete adapters of `Model/Path/AdaptersConcrete.lean` (`cbModel`, `itModel`: the C09
+model of lyon_geom's callback flatteners and `Flattened` iterators) — the very definitions the
+theorems of `Props/C16b.lean` are about.  `none` = lyon_geom panics on a curve
+(`count.to_u32().unwrap()`, `to_i32().unwrap()`: the harness then prints `panic` as well) or a
+curve iterator is still yielding after `fuelMax` pulls. -/
 def e2e (i : Inp) : String :=
-  unwords ("b" :: fcalls (flatBuilder (cbModel i.tol) origin i.n i.prog)
-    ++ "f" :: fevs (flatIter (itModel i.tol) (specEvents i.prog))
-    ++ "a" :: faevs (flatAttrIter (cbModel i.tol) (attrEvents i.prog)))
+  match flatBuilderC i.tol origin i.n i.prog, flatAttrIterC i.tol (attrEvents i.prog),
+      flatIterC fuelMax i.tol (specEvents i.prog) with
+  | some b, some a, some f => unwords ("b" :: fcalls b ++ "f" :: fevs f ++ "a" :: faevs a)
+  | some _, some _, none => "panic-or-fuel-exhausted"
+  | _, _, _ => "panic"
+
+/-- family `e2ep`: builder side and `for_each_flattened` only, `panic` being a compared outcome -/
+def e2ep (i : Inp) : String :=
+  match flatBuilderC i.tol origin i.n i.prog, flatAttrIterC i.tol (attrEvents i.prog) with
+  | some b, some a => unwords ("b" :: fcalls b ++ "a" :: faevs a)
+  | _, _ => "panic"
+
+/-- family `sim`: `m` an exact similarity of scale `s = |m11| + |m12|`; flatten at `tol` then
+transform (`ft`) and transform then flatten at `s·tol` (`tf`), both with the concrete flattener
+model (`flatten_transform_similarity_concrete`: the two are equal in exact arithmetic) -/
+def sim (i : Inp) : String :=
+  let s : F := Scalar.abs i.m.m11 + Scalar.abs i.m.m12
+  match flatBuilderC i.tol origin i.n i.prog,
+      flatBuilderC (s * i.tol) origin i.n (xfBuilder i.m.apply i.prog) with
+  | some ft, some tf => unwords ("ft" :: fcalls (xfBuilder i.m.apply ft) ++ "tf" :: fcalls tf)
+  | _, _ => "panic"
 
 def fam (name : String) (f : Inp → String) : Family := Family.plain name (fun v => f (parse v))
 
 def families : List Family := [
   fam "wit" bf, fam "bf" bf, fam "bt" bt, fam "bn" bn, fam "na" na, fam "pb" pb,
-  fam "it" it, fam "ix" ix, fam "in" in_, fam "e2e" e2e ]
+  fam "it" it, fam "ix" ix, fam "in" in_, fam "e2e" e2e, fam "e2ep" e2ep,
+  fam "sim" sim ]
 
 end Lyon.Drive.C16
 
